@@ -37,9 +37,16 @@ def _agg_len_axiom(ctx):
 
 
 def _corr_axiom(ctx):
+  """Correlations of real (non-constant, non-collinear) series lie strictly
+  inside (-1, 1): stated on the spec function of `corr`."""
   x, y = z3.Consts('x!ax y!ax', Arr)
-  c = z3.Function('CORR', Arr, Arr, z3.RealSort())
-  return z3.ForAll([x, y], z3.And(c(x, y) > -1, c(x, y) < 1))
+  ps = [z3.Int('p0!ax')] + [z3.Real('p%d!ax' % i) for i in range(1, 5)]
+  xn = z3.Bool('xn!ax')
+  f = z3.Function('F_corr#r.val', z3.BoolSort(), Arr, Arr, I,
+                  z3.RealSort(), z3.RealSort(), z3.RealSort(),
+                  z3.RealSort(), z3.RealSort())
+  t = f(xn, x, y, *ps)
+  return z3.ForAll([xn, x, y] + ps, z3.And(t > -1, t < 1))
 
 
 spec.axioms.append(('aggregate series have one entry per date of the '
@@ -78,8 +85,7 @@ def agg_y(s, sset):
 
 def RI(s, t, c):
   """Required impact of the design (T, C)."""
-  return cl.EST(agg_y(s, t), s.self.parameters,
-                cl.CORR(agg_y(s, c), agg_y(s, t)))
+  return cl.RIv(agg_y(s, c), agg_y(s, t), s.self.parameters)
 
 
 def legal(s, t, c):
